@@ -344,6 +344,9 @@ def run_files(fields):
         logging.getLogger().addHandler(h)
         raised = None
         dumpf = os.path.join(root, "dump.txt") if opts.get("dump") else None
+        if dumpf and opts.get("dump_stale") is not None:      # the dump path already holds the map of an earlier run
+            with open(dumpf, "w") as f:
+                f.write(opts["dump_stale"])
         kw = dict(anon_pwd=opts.get("pwd", False), anon_ip=opts.get("ip", False), salt=opts.get("salt"), sensitive_words=opts.get("words"),
                   undo_ip_anon=opts.get("undo", False), as_numbers=opts.get("asnums"), reserved_words=opts.get("reserved"),
                   preserve_prefixes=opts.get("prefixes"), preserve_networks=opts.get("networks"),
